@@ -386,6 +386,66 @@ theorem sinr_after_history_first_principles (k : Fin K) (l : Fin (S k)) (i0 : Rx
           noisePow (noiseVar (afterHistory i0 hist).noise) (filt (afterHistory i0 hist).Uk l))) :=
   sinr_first_principles _ _ k _ _ l hσ hden
 
+/-! ### robustness classes, as far as they are facts about the model -/
+
+/-- **R4 refused calls leave no trace; R3 reports are values; R7 only the current inputs count.**
+    For a long-lived object driven through ANY history of calls, each of which is either accepted
+    (new inputs) or refused (exception):
+    * a refused call leaves the inputs exactly as they were, hence the history with the refused call
+      struck out leads to the same inputs — and to the same reports ever after;
+    * what the object reported up to some point (`reportsAlong`) is not altered by anything that happens
+      later (the reports of the longer history start with the reports of the shorter one);
+    * the last report is the report of a fresh object given the current inputs. -/
+theorem refused_calls_leave_no_trace {ι β : Type} (report : ι → β) (i0 : ι)
+    (h1 h2 : List (ι → Except PyErr ι)) (call : ι → Except PyErr ι) (err : PyErr)
+    (hrefused : call (afterCalls i0 h1) = .error err) :
+    stepOrKeep (afterCalls i0 h1) call = afterCalls i0 h1 ∧
+    afterCalls i0 (h1 ++ call :: h2) = afterCalls i0 (h1 ++ h2) ∧
+    (reportsAlong report i0 (h1 ++ h2)).take (h1.length + 1) = reportsAlong report i0 h1 ∧
+    (reportsAlong report i0 (h1 ++ call :: h2)).take (h1.length + 1) = reportsAlong report i0 h1 ∧
+    (reportsAlong report i0 (h1 ++ call :: h2)).getLast? = some (report (afterCalls i0 (h1 ++ h2))) := by
+  have hkeep : stepOrKeep (afterCalls i0 h1) call = afterCalls i0 h1 := by
+    simp only [stepOrKeep, hrefused]
+  have hsame : afterCalls i0 (h1 ++ call :: h2) = afterCalls i0 (h1 ++ h2) := by
+    rw [afterCalls_append, afterCalls_append]
+    show afterCalls (stepOrKeep (afterCalls i0 h1) call) h2 = _
+    rw [hkeep]
+  refine ⟨hkeep, hsame, reportsAlong_take report i0 h1 h2, reportsAlong_take report i0 h1 (call :: h2), ?_⟩
+  rw [reportsAlong_getLast, hsame]
+
+/-- **R1 / R2 presentation does not matter**: the model's reports are functions of the logical
+    matrices and numbers only.  Whatever carries them — element type, memory layout, container,
+    0-d array or scalar (`π` is any type of presentations with its reading `decode`) — two
+    presentations of the same values are reported on identically. -/
+theorem reports_depend_on_logical_values_only {π ι β : Type} (decode : π → ι) (report : ι → β) (p q : π)
+    (h : decode p = decode q) : report (decode p) = report (decode q) := by rw [h]
+
+/-- **R6 no absolute scale**: multiplying every link by `√g` (`g > 0`, all received powers by `g`)
+    and the noise variance by `g` leaves every reported SINR exactly where it was — there is no
+    threshold, floor or regulariser in the quotient (the only special value is a denominator that
+    is EXACTLY zero, and it stays exactly zero under scaling). -/
+theorem sinr_power_scale_invariant (G : (j : Fin K) → Mat ℂ n (T j)) (V : (j : Fin K) → Mat ℂ (T j) (S j))
+    (k : Fin K) (Uk : Mat ℂ n (S k)) (σ2 g : ℝ) (l : Fin (S k)) (hg : 0 < g) :
+    (chSinr (fun j => plScale (G j) g) V k Uk (baseRek n (some (g * σ2))) l : Except PyErr ℝ) =
+      chSinr G V k Uk (baseRek n (some σ2)) l := by
+  have hs : ∀ j d, streamPow (fun j => plScale (G j) g) V (filt Uk l) j d = g * streamPow G V (filt Uk l) j d :=
+    fun j d => pathloss_stream_power G V (fun _ => g) (fun _ => hg.le) (filt Uk l) j d
+  have hi : intfPow (fun j => plScale (G j) g) V (filt Uk l) k l = g * intfPow G V (filt Uk l) k l := by
+    simp only [intfPow, hs, Finset.mul_sum]
+  have hn : noisePow (g * σ2) (filt Uk l) = g * noisePow σ2 (filt Uk l) := by
+    simp only [noisePow]; ring
+  have hD : intfPow (fun j => plScale (G j) g) V (filt Uk l) k l + noisePow (noiseVar (some (g * σ2))) (filt Uk l) =
+      g * (intfPow G V (filt Uk l) k l + noisePow (noiseVar (some σ2)) (filt Uk l)) := by
+    show _ + noisePow (g * σ2) (filt Uk l) = g * (_ + noisePow σ2 (filt Uk l))
+    rw [hi, hn]; ring
+  rw [chSinr_eq _ V k Uk _ l _ (qf_baseRek (isFilt_channel Uk l) (some (g * σ2))),
+    chSinr_eq G V k Uk _ l _ (qf_baseRek (isFilt_channel Uk l) (some σ2))]
+  by_cases h0 : intfPow G V (filt Uk l) k l + noisePow (noiseVar (some σ2)) (filt Uk l) = 0
+  · rw [if_pos h0, if_pos (by rw [hD, h0, mul_zero])]
+  · rw [if_neg h0, if_neg (by rw [hD]; exact mul_ne_zero hg.ne' h0)]
+    congr 2
+    rw [hD, sigPow, sigPow, hs, mul_div_mul_left _ _ hg.ne']
+
 /-! ### the hypotheses are satisfiable (non-vacuity) -/
 
 /-- a two-user scenario with one antenna everywhere, unit channel/precoders/filters and
